@@ -16,6 +16,7 @@ From Shexer Require Import Lib.PyStr Lib.Dict Gen.Consts Spec.Rdf Model.Tracker 
   Spec.ConstraintSpec Spec.ShaclGraphSpec Model.SerialShacl Model.ShaclDoc.
 From Shexer Require Import Proofs.DictLemmas Proofs.ProfileChar Proofs.EndToEnd Proofs.EndToEnd2
   Proofs.ClosureLemmas Proofs.ShaclDocProofs.
+From Shexer Require Proofs.ShaclProofs.
 Import ListNotations.
 Local Open Scope N_scope.
 
@@ -125,20 +126,59 @@ Proof.
   exact (run_profile_refs_closed c g I P C ID Hfree Ht Hp).
 Qed.
 
-(** S4: the SHACL graph of a run ([detect_minimal_iri] off) *)
+(** S4: the SHACL graph of a run ([detect_minimal_iri] off).  [L] pairs every shape's IRI with the
+    IRI [_add_target_class] makes of its class key ([target_class_obj]) *)
 Theorem run_shacl_graph fa c thr g ns shapes tr L :
   r_shapes_ns c = c_SHAPES_DEFAULT_NAMESPACE ->
   forallb (sentinel_free (r_tau c)) g = true ->
   run_shapes fa c thr g = inl (ns, shapes) ->
-  shacl_graph ns (r_tau c) shapes = inl tr -> names_iris shapes L ->
+  shacl_graph ns (r_tau c) shapes = inl tr -> names_iris_by target_class_obj shapes L ->
   node_objects_declared tr (map fst L) /\ property_shapes_one_path tr /\
   (forall n, node_shape tr n <-> exists u cl, In (u, cl) L /\ n = TIri u) /\
   (NoDup (map fst L) -> node_shapes_exact tr L).
 Proof.
   intros Hns Hfree Hrun Hg HL.
   pose proof (run_refs_closed fa c thr g ns shapes Hns Hfree Hrun) as Hrc.
-  split; [exact (shacl_gen_node_objects_declared _ _ _ _ _ _ Hg HL Hrc)|].
+  split; [exact (shacl_gen_node_objects_declared_by _ _ _ _ _ _ _ Hg HL Hrc)|].
   split; [exact (shacl_gen_one_path _ _ _ _ _ Hg)|].
-  split; [exact (shacl_gen_node_shapes_iff _ _ _ _ _ _ Hg HL)|].
-  intros Hnd. exact (shacl_gen_node_shapes_exact _ _ _ _ _ _ Hg HL Hnd).
+  split; [exact (shacl_gen_node_shapes_iff_by _ _ _ _ _ _ _ Hg HL)|].
+  intros Hnd. exact (shacl_gen_node_shapes_exact_by _ _ _ _ _ _ Hg HL Hnd).
+Qed.
+
+(** *** class-based runs: no class key is written in corners when no class IRI of the graph and no
+    requested target class is, hence [sh:targetClass] names the class key itself, whichever text
+    [_add_target_class] has *)
+Definition classes_plain (c : rcfg) (g : graph) : Prop :=
+  (forall t o, In t g -> tp t = r_tau c -> to t = ON o -> cornered (nid o) = false) /\
+  (forall l x, r_targets c = Some l -> In x l -> cornered x = false).
+
+Theorem run_classes_plain fa c thr g ns shapes :
+  classes_plain c g -> run_shapes fa c thr g = inl (ns, shapes) ->
+  forall sh, In sh shapes -> target_class_obj (sh_class sh) = sh_class sh.
+Proof.
+  intros [Hg Ht] Hrun sh Hsh. apply ShaclProofs.target_class_obj_plain.
+  destruct (e2e_header fa c thr g ns shapes Hrun) as (I & Htr & Hcl & _).
+  destruct (Hcl sh Hsh) as [Hin _]. unfold class_keys in Hin.
+  rewrite uniq_first_first_occ in Hin. repeat apply (proj1 (In_first_occ _ _)) in Hin. apply in_app_or in Hin.
+  destruct Hin as [Hin|Hin].
+  - unfold targets_of, pcfg_of in Hin. cbn [p_targets] in Hin.
+    destruct (r_targets c) as [l|] eqn:El; [|destruct Hin]. exact (Ht l _ eq_refl Hin).
+  - apply in_concat in Hin. destruct Hin as [cs [Hcs Hc]]. apply in_map_iff in Hcs. destruct Hcs as [[i cs'] [<- Hi]].
+    pose proof (track_classes _ _ _ _ _ Htr) as Hlist. rewrite Forall_forall in Hlist.
+    destruct (Hlist _ Hi _ Hc) as (t & o & Htg & _ & Htp & Hto & <-). exact (Hg t o Htg Htp Hto).
+Qed.
+
+(** the statement with [names_iris] ("its class" = the class key of the shape) *)
+Theorem run_shacl_graph_class fa c thr g ns shapes tr L :
+  r_shapes_ns c = c_SHAPES_DEFAULT_NAMESPACE ->
+  forallb (sentinel_free (r_tau c)) g = true -> classes_plain c g ->
+  run_shapes fa c thr g = inl (ns, shapes) ->
+  shacl_graph ns (r_tau c) shapes = inl tr -> names_iris shapes L ->
+  node_objects_declared tr (map fst L) /\ property_shapes_one_path tr /\
+  (forall n, node_shape tr n <-> exists u cl, In (u, cl) L /\ n = TIri u) /\
+  (NoDup (map fst L) -> node_shapes_exact tr L).
+Proof.
+  intros Hns Hfree Hpl Hrun Hg HL.
+  apply (run_shacl_graph fa c thr g ns shapes tr L Hns Hfree Hrun Hg).
+  apply names_iris_by_class; [|exact HL]. exact (run_classes_plain fa c thr g ns shapes Hpl Hrun).
 Qed.
